@@ -43,6 +43,11 @@ AnyUndefOn(m, s) == \E q \in SubF(m.inst) : Out(q, CurOn(m), s, m.cfg.S, m.cfg.M
 NoCase == [objs |-> <<>>, events |-> <<>>, rels |-> <<>>, tid |-> 0]
 CaseAt(i) == IF i <= NCases THEN Cases[i] ELSE NoCase
 
+\* the formula an object monitors: given directly in samples (phi) or as written (written + units, property C08)
+IsWritten(obj) == "written" \in DOMAIN obj
+PhiOf(obj) == Desugar(IF IsWritten(obj) THEN NormAst(obj.written, obj.units) ELSE obj.phi)
+StatusOf(obj) == IF IsWritten(obj) THEN NormStatus(obj.written, obj.units) ELSE "ok"
+
 F(clause, step, exp, got) == <<[clause |-> clause, step |-> step, exp |-> exp, got |-> got, alt |-> "", pof |-> FALSE]>>
 \* failure of a pastified object's update: alt = what the pastification scheme as designed returns here
 FP(clause, step, exp, got, alt, pof) ==
@@ -62,9 +67,12 @@ ExcClass(expectedOk, e, clause, step) ==
   ELSE (IF e.exc = "RTAMT" THEN Ok ELSE F(clause, step, "RTAMT", IF e.exc = NoExc THEN "ok" ELSE e.exc))
 
 ApplyParse(m, o, e, obj, step) ==
+  IF StatusOf(obj) = "overflow" THEN R(m, [o EXCEPT !.dead = TRUE], Ok, 1) ELSE
   LET f1 == ExcClass(TRUE, e, "parse.exc", step)
-      f2 == IF f1 = Ok /\ obj.implAst # obj.phi THEN F("parse.ast", step, "phi", "implAst") ELSE Ok IN
-  R(ParseF(m, obj.phi), o, f1 \o f2, 0)
+      phi0 == PhiOf(obj)
+      impl == IF IsWritten(obj) /\ obj.implAst.op # "none" THEN NormAst(obj.implAst, obj.units) ELSE obj.implAst
+      f2 == IF f1 = Ok /\ impl # phi0 THEN F("parse.ast", step, phi0, impl) ELSE Ok IN
+  R(ParseF(m, phi0), o, f1 \o f2, 0)
 
 ApplyPastify(m, o, e, step) ==
   IF CanPastify(m) THEN R(PastifyF(m, {}), o, ExcClass(TRUE, e, "pastify.exc", step), 0)
@@ -174,6 +182,9 @@ ApplyGet(m, o, e, obj, step) ==
 Apply(c, e, step) ==
   LET m == ms[e.o] o == ob[e.o] obj == c.objs[e.o] IN
   IF o.dead THEN R(m, o, Ok, 0) ELSE
+  \* C08: a bound that is not a whole number of sampling periods is rejected (RTAMTException) at the first evaluation
+  IF e.a \in {"update", "evaluate"} /\ StatusOf(obj) = "nonint"
+  THEN R(m, [o EXCEPT !.dead = TRUE], ExcClass(FALSE, e, "units.nonmultiple", step), 0) ELSE
   CASE e.a = "parse"    -> ApplyParse(m, o, e, obj, step)
     [] e.a = "pastify"  -> ApplyPastify(m, o, e, step)
     [] e.a = "update"   -> ApplyUpdate(m, o, e, step)
